@@ -867,3 +867,47 @@ SPECS["C05"]["theorems"] += [
 SPECS["C05"]["level_text"] += (' Run level: a whole Op history (whose backfill tokens are its own) and a whole HCOBS encoder run (no side condition) is '
     'ONE history of this vocabulary on the world whose handle table carries the tokens (op_run_is_wrun, enc_prefix_is_wrun, enc_run_is_wrun), so those '
     'worlds are Reachable exactly as C05 / C10 / C20 quantify.')
+
+# ---- track anch: the codecs' ANCHORED input method in the proved single-iovec vocabulary; the `_partial` restriction
+# ---- ("borrow/copy input methods only") of Props/C01W, C02W, C09W lifted by Props/C01G, C02G, C09H
+SPECS["C01"]["lean_modules"] += ["Woodpile.Props.C01G"]
+SPECS["C01"]["theorems"] += [
+    "Woodpile.Props.C01G.run_extends",
+    "Woodpile.Props.C01G.read_piece",
+    "Woodpile.Props.C01G.encWorld_no_panic",
+    "Woodpile.Props.C01G.encWorld_is_ops",
+    "Woodpile.Props.C01G.encWorld_abs_between_calls",
+    "Woodpile.Props.C01G.encWorld_abs",
+    "Woodpile.Props.C01G.enc_world_output",
+    "Woodpile.Props.C01G.world_roundtrip",
+    "Woodpile.Props.C01G.dec_world_output",
+    "Woodpile.Props.C01G.world_roundtrip_both",
+]
+SPECS["C01"]["level_text"] += (' Props/C01G (track anch) LIFTS the `_partial` restriction of Props/C01W: the call vocabulary EncWorld.ACall adds '
+    'encode_read / decode_read with an arbitrary scripted reader (= read_n into the codec\'s OWN arena, then encode_anchored / decode_anchored: '
+    'OwningIovec::push of sub-slices of the returned chunk slice — copied when small, borrowed and possibly merged otherwise — then push_anchor; '
+    'Model/EncWorld.encodeRead / decodeRead, the functions Driver/CodecW replays for the op words `feed a` and `feed_read`), and every C01W theorem is '
+    'restated over it without the suffix (run_extends: the old vocabulary is embedded). Anchored input from a FOREIGN arena is, for the iovec\'s content, '
+    'the borrow method (memory that outlives the iovec) and is covered as such. At the state-machine level the anchored method IS the borrow method '
+    '(encode_anchored calls self.encode(slice)), which is why Hcobs.Method has two constructors and Driver/Hcobs.parseMethod maps a / r to borrow. '
+    'Underneath, the single-iovec invariant IovInv (Proofs/IovecInv) now says owned slices are pairwise disjoint (not allocation-ordered) and '
+    'allows zero-count anchors; Proofs/IovecAnch has the held-arena-slice lemmas (read_n, push of held memory, push_anchor).')
+SPECS["C02"]["lean_modules"] += ["Woodpile.Props.C02G"]
+SPECS["C02"]["theorems"] += [
+    "Woodpile.Props.C02G.enc_world_no_stuff",
+    "Woodpile.Props.C02G.enc_world_split_independent",
+    "Woodpile.Props.C02G.enc_world_length_bound_prod",
+]
+SPECS["C02"]["level_text"] += (' Props/C02G (track anch) lifts the `_partial` restriction of Props/C02W: no-stuff, split/method/drain independence and the '
+    'production length bound on the structural iovec for ALL input methods (borrow, copy, anchored reads with any reader behaviour; vocabulary '
+    'EncWorld.ACall, see C01).')
+SPECS["C09"]["lean_modules"] += ["Woodpile.Props.C09H"]
+SPECS["C09"]["theorems"] += [
+    "Woodpile.Props.C09H.enc_lag_struct",
+    "Woodpile.Props.C09H.enc_lag_le_partial",
+    "Woodpile.Props.C09H.dec_lag_zero_world",
+]
+SPECS["C09"]["level_text"] += (' Props/C09H (track anch) lifts the method restriction of Props/C09W: the exact structural lag of the encoder-driven iovec '
+    '(enc_lag_struct) and decoder lag 0 (dec_lag_zero_world) hold for ALL input methods (EncWorld.ACall: borrow, copy, anchored reads). '
+    'C09H.enc_lag_le_partial is still `_partial`, for ONE reason: the constant bound takes the in-capacity hypothesis (as C09W); C09G discharges it for '
+    'borrow/copy input only, and with anchored input the constant is max(2^20, largest read_n count), not 2^20.')
